@@ -1,17 +1,223 @@
 /-
   TE.Driver.Text — protocol adapters of the Text family (see TE/Driver/Count.lean for the conventions).
+  Wire format: a sentence is a 1-D tensor of token ids (`0:` = no token); `input=<tensor>` is a `str`
+  argument, `input=[t;t]` a `list[str]`; a BLEU `target` is the flat list of the references in which every
+  candidate's group of references is followed by the terminator tensor `1:-1` (a list without any
+  terminator is a list of single-reference groups).
+  BLEU's final step (`exp`, `log`) is evaluated here in `Float` (IEEE double) on the exact rational
+  ingredients the model returns.
 -/
 import TE.Driver.Fam
+import TE.Model.Text
+import TE.Spec.Text
 namespace TE.Driver
-open TE
+open TE TE.Text
 
-/-- (functional name, class name, configured family) — sufficient-statistic / cache-all classes. -/
-def textFams : List (String × String × (Args → Except String Fam)) := []
+namespace TextA
+
+abbrev Tok := Int
+abbrev Sent := List Tok
+
+def sentOf (t : T) : Except String Sent :=
+  t.data.mapM fun q => match qToInt? q with
+    | some n => .ok n | none => .error "non-integer token"
+
+/-- a `str | list[str]` argument: (is a list, sentences) -/
+def textArg (a : Args) (k : String) : Except String (Bool × List Sent) :=
+  match a.get? k with
+  | some (.t x) => do pure (false, [← sentOf x])
+  | some (.l xs) => do pure (true, ← xs.mapM sentOf)
+  | _ => .error s!"missing text arg '{k}'"
+
+def isTerm (s : Sent) : Bool := s == [-1]
+
+/-- split the flat reference list into the per-candidate groups. -/
+def groups (ss : List Sent) : List (List Sent) :=
+  if !ss.any isTerm then ss.map fun s => [s] else
+  let rec go (l : List Sent) (cur : List Sent) (acc : List (List Sent)) : List (List Sent) :=
+    match l with
+    | [] => acc.reverse
+    | s :: l => if isTerm s then go l [] (cur.reverse :: acc) else go l (s :: cur) acc
+  go ss [] []
+
+/-! edit distance (both copies) -/
+
+def fnEditDistance (a : Args) : Except Err String := do
+  let p ← liftP (a.tensor "prediction_tokens"); let r ← liftP (a.tensor "reference_tokens")
+  let p ← liftP (sentOf p); let r ← liftP (sentOf r)
+  let d := if a.strD "copy" "wer" == "helper" then editDistanceHelper p r else editDistance p r
+  pure (showTQ [] [(d : Q)])
+
+def specEditDistance (a : Args) : Except Err String := do
+  let p ← liftP (a.tensor "prediction_tokens"); let r ← liftP (a.tensor "reference_tokens")
+  let p ← liftP (sentOf p); let r ← liftP (sentOf r)
+  let d := if a.strD "copy" "wer" == "list" then Spec.Text.levL p r else Spec.Text.lev p r
+  pure (showTQ [] [(d : Q)])
+
+/-! WER / WIP / WIL -/
+
+/-- `_word_error_rate_input_check` / `_word_information_preserved_input_check` -/
+def sameTypeArgs (a : Args) : Except Err (List Sent × List Sent) := do
+  let (li, i) ← liftP (textArg a "input"); let (lt, t) ← liftP (textArg a "target")
+  if li != lt then throw .value
+  if li && i.length != t.length then throw .value
+  pure (i, t)
+
+/-- `_wil_update`: both arguments wrapped into lists, then `assert len(input) == len(target)` -/
+def wilArgs (a : Args) : Except Err (List Sent × List Sent) := do
+  let (_, i) ← liftP (textArg a "input"); let (_, t) ← liftP (textArg a "target")
+  if i.length != t.length then throw .assertion
+  pure (i, t)
+
+def famWer (_ : Args) : Except String Fam := pure {
+  stat := fun a => do
+    let (i, t) ← sameTypeArgs a
+    let (e, n) := werUpdate i t
+    pure [[e], [n]]
+  outA := fun p => .ok (showScalarX (werCompute (part0 p 0) (part0 p 1))) }
+
+def famWip (_ : Args) : Except String Fam := pure {
+  stat := fun a => do
+    let (i, t) ← sameTypeArgs a
+    let (c, n, m) := wipUpdate i t
+    pure [[c], [n], [m]]
+  outA := fun p => .ok (showScalarX (wipCompute (part0 p 0) (part0 p 1) (part0 p 2))) }
+
+def famWil (_ : Args) : Except String Fam := pure {
+  stat := fun a => do
+    let (i, t) ← wilArgs a
+    let (c, n, m) := wilUpdate i t
+    pure [[c], [n], [m]]
+  outA := fun p => .ok (showScalarX (wilCompute (part0 p 0) (part0 p 1) (part0 p 2))) }
+
+def pairsOf (a : Args) : Except Err (List (Sent × Sent)) := do
+  let (_, i) ← liftP (textArg a "input"); let (_, t) ← liftP (textArg a "target")
+  pure (i.zip t)
+
+def specWer (a : Args) : Except Err String := do
+  pure (showScalarX (Spec.Text.wer (← pairsOf a)))
+
+/-- WIP/WIL are `nan` as soon as one of the totals is zero (0/0). -/
+def specWip (a : Args) : Except Err String := do
+  let ps ← pairsOf a
+  if Spec.Text.refTotal ps = 0 ∨ Spec.Text.hypTotal ps = 0 then pure (showScalarX .nan)
+  else pure (showScalarX (.val (Spec.Text.wip ps)))
+
+def specWil (a : Args) : Except Err String := do
+  let ps ← pairsOf a
+  if Spec.Text.refTotal ps = 0 ∨ Spec.Text.hypTotal ps = 0 then pure (showScalarX .nan)
+  else pure (showScalarX (.val (Spec.Text.wil ps)))
+
+/-! BLEU -/
+
+def q2f (q : Q) : Float := Float.ofInt q.num / Float.ofNat q.den
+
+/-- exact value of an IEEE double. -/
+def floatToXQ (x : Float) : XQ :=
+  if x.isNaN then .nan
+  else if x.isInf then (if x > 0 then .pinf else .ninf)
+  else
+    let b := x.toBits.toNat
+    let sign := b >>> 63
+    let e := (b >>> 52) % 2048
+    let m := b % (2 ^ 52)
+    let mant : Nat := if e = 0 then m else m + 2 ^ 52
+    let ex : Int := if e = 0 then -1074 else (e : Int) - 1075
+    let v : Q := if 0 ≤ ex then ((mant * 2 ^ ex.toNat : Nat) : Q)
+                 else (mant : Q) / ((2 ^ (-ex).toNat : Nat) : Q)
+    .val (if sign = 1 then -v else v)
+
+/-- `_bleu_score_compute` in double precision: brevity penalty × exp(Σ wᵢ·log(mᵢ/pᵢ)). -/
+def bleuFloat (inputLen targetLen : Q) (ms ps ws : List Q) : Float :=
+  let precisions := (ms.zip ps).map fun p => q2f p.1 / q2f p.2
+  let s := ((ws.zip precisions).map fun p => q2f p.1 * Float.log p.2).foldl (· + ·) 0.0
+  let gm := Float.exp s
+  let bp := if inputLen > targetLen then 1.0 else Float.exp (1.0 - q2f targetLen / q2f inputLen)
+  bp * gm
+
+/-- `weights=`: tensor or none (uniform 1/n). -/
+def weightsOf (a : Args) (n : Nat) : Except String (Option (List Q)) := do
+  match ← a.tensor? "weights" with
+  | none => pure none
+  | some w => pure (some w.data)
+
+def bleuCompute (n : Nat) (w : Option (List Q)) (il tl : Q) (ms ps : List Q) : Except Err String := do
+  let ws ← (match w with
+    | some ws => if ws.length != n then .error Err.value else .ok ws
+    | none => .ok (List.replicate n (1 / (n : Q))))
+  pure (showScalarX (floatToXQ (bleuFloat il tl ms ps ws)))
+
+def bleuArgs (a : Args) : Except Err (List Sent × List (List Sent)) := do
+  let (_, i) ← liftP (textArg a "input")
+  let t ← liftP (a.tlist "target")
+  let t ← liftP (t.mapM sentOf)
+  let g := groups t
+  if i.length != g.length then throw .value
+  pure (i, g)
+
+def natQ (l : List Nat) : List Q := l.map fun (n : Nat) => (n : Q)
+
+def fnBleu (a : Args) : Except Err String := do
+  let n ← liftP (match a.get? "n_gram" with | none => pure 4 | _ => a.nat "n_gram")
+  let w ← liftP (weightsOf a n)
+  let (i, g) ← bleuArgs a
+  let s ← bleuUpdate n i g
+  bleuCompute n w (s.inputLen : Nat) (s.targetLen : Nat) (natQ s.matchesBy) (natQ s.possibleBy)
+
+def famBleu (cfg : Args) : Except String Fam := do
+  let n ← cfg.nat "n_gram"
+  let w ← weightsOf cfg n
+  if !(n = 1 ∨ n = 2 ∨ n = 3 ∨ n = 4) then throw "constructor raises ValueError"
+  if (w.map (·.length)).getD n != n then throw "constructor raises ValueError"
+  pure {
+    stat := fun a => do
+      let (i, g) ← bleuArgs a
+      let s ← bleuUpdate n i g
+      pure [[(s.inputLen : Nat)], [(s.targetLen : Nat)], natQ s.matchesBy, natQ s.possibleBy]
+    outA := fun p =>
+      let ms := part p 2 n
+      if qsum ms = 0 then .ok (showScalarX (.val 0)) else
+      bleuCompute n w (part0 p 0) (part0 p 1) ms (part p 3 n) }
+
+/-- textbook BLEU ingredients (clipped counts per order, closest reference length by search) + the same final step. -/
+def specBleu (a : Args) : Except Err String := do
+  let n ← liftP (match a.get? "n_gram" with | none => pure 4 | _ => a.nat "n_gram")
+  let w ← liftP (weightsOf a n)
+  let (i, g) ← bleuArgs a
+  let cs := i.zip g
+  let ms := (List.range n).map fun o => ((cs.map fun c => Spec.Text.clippedMatches (o + 1) c.1 c.2).sum : Nat)
+  let ps := (List.range n).map fun o => ((cs.map fun c => Spec.Text.possibleMatches (o + 1) c.1.length).sum : Nat)
+  let il := (cs.map fun c => c.1.length).sum
+  -- closest reference length: smallest (|r − c|, r) by exhaustive comparison
+  let tl := (cs.map fun c =>
+    let lens := c.2.map (·.length)
+    (lens.filter fun r => lens.all fun x =>
+      decide (absDiff r c.1.length < absDiff x c.1.length ∨ (absDiff r c.1.length = absDiff x c.1.length ∧ r ≤ x))).headD 0).sum
+  bleuCompute n w (il : Nat) (tl : Nat) (natQ ms) (natQ ps)
+
+end TextA
+
+/-- (functional name, class name, configured family) — sufficient-statistic / cache-all classes.
+    `BLEUScore.compute` has its own zero-match branch, so `bleu_score` is served from `textFns`. -/
+def textFams : List (String × String × (Args → Except String Fam)) := [
+  ("word_error_rate", "WordErrorRate", TextA.famWer),
+  ("word_information_preserved", "WordInformationPreserved", TextA.famWip),
+  ("word_information_lost", "WordInformationLost", TextA.famWil),
+  ("bleu_score.state", "BLEUScore", TextA.famBleu)
+]
 
 /-- (class name, packaged class model) — classes that are not `additive` (own state machine). -/
 def textPacks : List (String × (Args → Except String Pack)) := []
 
 /-- (request name, handler) — functionals without a class twin and `spec.*` oracles. -/
-def textFns : List (String × (Args → Except Err String)) := []
+def textFns : List (String × (Args → Except Err String)) := [
+  ("bleu_score", TextA.fnBleu),
+  ("edit_distance", TextA.fnEditDistance),
+  ("spec.edit_distance", TextA.specEditDistance),
+  ("spec.word_error_rate", TextA.specWer),
+  ("spec.word_information_preserved", TextA.specWip),
+  ("spec.word_information_lost", TextA.specWil),
+  ("spec.bleu_score", TextA.specBleu)
+]
 
 end TE.Driver
